@@ -973,7 +973,8 @@ pub fn def(tier: Tier) -> CheckDef {
         subs.push(programs_sub(tier, len));
     }
     for len in 0..=3 {
-        subs.push(protocol_sub(tier, len, tier.pick(1, 2)));
+        // two deviations are cheap up to length 2: run them in both tiers
+        subs.push(protocol_sub(tier, len, if len <= 2 { 2 } else { tier.pick(1, 2) }));
     }
     if tier == Tier::Thorough {
         subs.push(protocol_sub(tier, 4, 1));
